@@ -25,12 +25,12 @@ def run(tier):
         "while every larger distance stops the arm at a masked neighbour; the statement does not say which reading applies",
         "integer image values and costs; aggregated costs projected to fractions with denominator <= 256 (region sizes <= 81)",
     ]
-    res = chk.tlc("MC_Aggregation", "MC_Aggregation.cfg", label="cbca_theorems", workers=16, timeout=600, heap="6g")
+    res = chk.tlc("MC_Aggregation", "MC_Aggregation_thorough.cfg" if tier == "thorough" else "MC_Aggregation.cfg", label="cbca_theorems", workers=16, timeout=1500, heap="6g")
     for inv in res.invariant_violations:
         chk.violation("spec:" + inv, {"model": "MC_Aggregation", "invariant": inv}, {"tlc": res.trace_text()}, "")
     vals = np.array([0, 4, 9, 10, 11, 40])
     cases, meta = [], {}
-    ncase = 48 if tier == "quick" else 600
+    ncase = 90 if tier == "quick" else 900
     for k in range(ncase):
         off = k % 2
         rows = int(rng.randint(3, 7)) + 2 * off
